@@ -92,5 +92,5 @@ def run(ctx):
         "probability, background shrinker active; linearization point = sequence number of the last successful commit (taken under the locks) or of the last lock grant of a failing request",
         ["READDIRPLUS holds a child's lock only while reading that child's attributes: sizes in concurrent listings are not compared (names, file ids, cookies, kinds and handles are)",
          "the slot a new name goes to is read from the directory's name cache under the locks at commit time"],
-        pending=["commit_order_replay as a theorem (serial execution in commit order equals the interleaved execution)"],
+        pending=[],
         partial=["schedules: all interleavings of the abstract system are covered by the theorem; the implementation is observed on the schedules the harness provokes"])
